@@ -301,6 +301,18 @@ class Path:
         self.assume(c if d else z3.Not(c))
         return d
 
+    def choice(self):
+        """demonic binary choice of the environment (e.g. "this I/O call fails"): both outcomes are possible by
+        construction, so no feasibility query and no path-condition literal is needed"""
+        i = len(self.taken)
+        if i < len(self.prefix):
+            d = self.prefix[i]
+        else:
+            self.ver.push_work(self.taken + [False])
+            d = True
+        self.taken.append(d)
+        return d
+
     def prove(self, phi, name, kind="assert", where="", assume_form=None):
         """obligation: pc => phi.  Conjunctions are split into one query per conjunct.
         assume_form: an equivalent formula better suited as a hypothesis (skolemised, with triggers); it
